@@ -12,6 +12,7 @@ import BiotiteModel.Proofs.C10Eq
 import BiotiteModel.Proofs.C10Score
 import BiotiteModel.Proofs.C10Api
 import BiotiteModel.Proofs.C10Audit
+import BiotiteModel.Proofs.C10GenExpected
 import BiotiteModel.Gen.C10
 /-!
 # C10 — property theorems (k-mer index tables and selectors)
@@ -588,6 +589,135 @@ theorem C10_gen_constants :
     Gen.C10.allocHeaderWords = Gen.C10.headerWords ∧
     Gen.C10.lcgA = 0xd1342543de82ef95 ∧ Gen.C10.lcgC = 1 ∧ Gen.C10.maxInt64 = int64Max ∧
     Gen.C10.kMin = 2 ∧ Gen.C10.windowMin = 2 ∧ Gen.C10.lcgA % 2 = 1 := by
+  decide
+
+/-! ## regenerated structure of the source (tie 7)
+
+Each theorem states that the logical code lines regenerated from the `.pyx` text on this run (`Gen.C10.*`: loop
+domains, guards with their comparison operators, index expressions, formulas, order of steps, default values, exception
+classes and the guard of every `raise`) equal the pinned lines the model was written against (`Expected.*`,
+`Proofs/C10GenExpected.lean`; the map source function → model definition is in notes/C10.md "What is regenerated"). -/
+
+theorem C10_gen_kmeralphabet :
+    Gen.C10.kalInitSpacing = Expected.kalInitSpacing ∧
+    Gen.C10.kalFuse = Expected.kalFuse ∧
+    Gen.C10.kalSplit = Expected.kalSplit ∧
+    Gen.C10.kalArrayLength = Expected.kalArrayLength ∧
+    Gen.C10.kalCreate = Expected.kalCreate ∧
+    Gen.C10.kalContinuous = Expected.kalContinuous ∧
+    Gen.C10.kalSpaced = Expected.kalSpaced ∧
+    Gen.C10.kalEq = Expected.kalEq ∧
+    Gen.C10.kalLen = Expected.kalLen ∧
+    Gen.C10.kalEncodeDecode = Expected.kalEncodeDecode ∧
+    Gen.C10.kalDecode = Expected.kalDecode ∧
+    Gen.C10.kalToArrayForm = Expected.kalToArrayForm := by
+  decide
+
+theorem C10_gen_tablebuild :
+    Gen.C10.ktCinit = Expected.ktCinit ∧
+    Gen.C10.bktCinit = Expected.bktCinit ∧
+    Gen.C10.ktFromSequences = Expected.ktFromSequences ∧
+    Gen.C10.bktFromSequences = Expected.bktFromSequences ∧
+    Gen.C10.ktFromKmers = Expected.ktFromKmers ∧
+    Gen.C10.bktFromKmers = Expected.bktFromKmers ∧
+    Gen.C10.ktFromSelection = Expected.ktFromSelection ∧
+    Gen.C10.bktFromSelection = Expected.bktFromSelection ∧
+    Gen.C10.ktFromTables = Expected.ktFromTables ∧
+    Gen.C10.bktFromTables = Expected.bktFromTables ∧
+    Gen.C10.ktFromPositions = Expected.ktFromPositions ∧
+    Gen.C10.ktCountKmers = Expected.ktCountKmers ∧
+    Gen.C10.ktCountMasked = Expected.ktCountMasked ∧
+    Gen.C10.bktCountKmers = Expected.bktCountKmers ∧
+    Gen.C10.bktCountMasked = Expected.bktCountMasked ∧
+    Gen.C10.ktAddKmers = Expected.ktAddKmers ∧
+    Gen.C10.bktAddKmers = Expected.bktAddKmers ∧
+    Gen.C10.ktAddSelection = Expected.ktAddSelection ∧
+    Gen.C10.bktAddSelection = Expected.bktAddSelection ∧
+    Gen.C10.countTableEntries = Expected.countTableEntries ∧
+    Gen.C10.initCArrays = Expected.initCArrays ∧
+    Gen.C10.appendEntries = Expected.appendEntries ∧
+    Gen.C10.equalCArrays = Expected.equalCArrays ∧
+    Gen.C10.pickleCArrays = Expected.pickleCArrays ∧
+    Gen.C10.unpickleCArrays = Expected.unpickleCArrays ∧
+    Gen.C10.computeRefIds = Expected.computeRefIds ∧
+    Gen.C10.computeMasks = Expected.computeMasks ∧
+    Gen.C10.computeAlphabet = Expected.computeAlphabet ∧
+    Gen.C10.checkPositionShape = Expected.checkPositionShape ∧
+    Gen.C10.checkSameAlphabet = Expected.checkSameAlphabet ∧
+    Gen.C10.checkSameBuckets = Expected.checkSameBuckets := by
+  decide
+
+theorem C10_gen_tablequery :
+    Gen.C10.ktMatch = Expected.ktMatch ∧
+    Gen.C10.bktMatch = Expected.bktMatch ∧
+    Gen.C10.ktMatchTable = Expected.ktMatchTable ∧
+    Gen.C10.bktMatchTable = Expected.bktMatchTable ∧
+    Gen.C10.ktMatchSelection = Expected.ktMatchSelection ∧
+    Gen.C10.bktMatchSelection = Expected.bktMatchSelection ∧
+    Gen.C10.ktCount = Expected.ktCount ∧
+    Gen.C10.bktCount = Expected.bktCount ∧
+    Gen.C10.ktGetKmers = Expected.ktGetKmers ∧
+    Gen.C10.bktGetKmers = Expected.bktGetKmers ∧
+    Gen.C10.ktGetItem = Expected.ktGetItem ∧
+    Gen.C10.bktGetItem = Expected.bktGetItem ∧
+    Gen.C10.ktContains = Expected.ktContains ∧
+    Gen.C10.ktIter = Expected.ktIter ∧
+    Gen.C10.ktReversed = Expected.ktReversed ∧
+    Gen.C10.ktLen = Expected.ktLen ∧
+    Gen.C10.ktEq = Expected.ktEq ∧
+    Gen.C10.bktEq = Expected.bktEq ∧
+    Gen.C10.ktState = Expected.ktState ∧
+    Gen.C10.bktState = Expected.bktState ∧
+    Gen.C10.toString = Expected.toString ∧
+    Gen.C10.checkKmerBounds = Expected.checkKmerBounds ∧
+    Gen.C10.checkMultipleKmerBounds = Expected.checkMultipleKmerBounds := by
+  decide
+
+theorem C10_gen_masks :
+    Gen.C10.prepareMask = Expected.prepareMask ∧
+    Gen.C10.toKmerMask = Expected.toKmerMask := by
+  decide
+
+theorem C10_gen_selector :
+    Gen.C10.minimize = Expected.minimize ∧
+    Gen.C10.forwardArgcummin = Expected.forwardArgcummin ∧
+    Gen.C10.reverseArgcummin = Expected.reverseArgcummin ∧
+    Gen.C10.minimizerInit = Expected.minimizerInit ∧
+    Gen.C10.minimizerSelect = Expected.minimizerSelect ∧
+    Gen.C10.minimizerFromKmers = Expected.minimizerFromKmers ∧
+    Gen.C10.syncmerInit = Expected.syncmerInit ∧
+    Gen.C10.syncmerSelect = Expected.syncmerSelect ∧
+    Gen.C10.syncmerFromKmers = Expected.syncmerFromKmers ∧
+    Gen.C10.syncmerFilter = Expected.syncmerFilter ∧
+    Gen.C10.cachedInit = Expected.cachedInit ∧
+    Gen.C10.cachedSelect = Expected.cachedSelect ∧
+    Gen.C10.cachedFromKmers = Expected.cachedFromKmers ∧
+    Gen.C10.mincodeInit = Expected.mincodeInit ∧
+    Gen.C10.mincodeSelect = Expected.mincodeSelect ∧
+    Gen.C10.mincodeFromKmers = Expected.mincodeFromKmers := by
+  decide
+
+theorem C10_gen_permutation :
+    Gen.C10.randomMin = Expected.randomMin ∧
+    Gen.C10.randomMax = Expected.randomMax ∧
+    Gen.C10.randomPermute = Expected.randomPermute ∧
+    Gen.C10.frequencyInit = Expected.frequencyInit ∧
+    Gen.C10.frequencyMin = Expected.frequencyMin ∧
+    Gen.C10.frequencyMax = Expected.frequencyMax ∧
+    Gen.C10.frequencyFromTable = Expected.frequencyFromTable ∧
+    Gen.C10.frequencyPermute = Expected.frequencyPermute ∧
+    Gen.C10.invertMapping = Expected.invertMapping := by
+  decide
+
+theorem C10_gen_similarity :
+    Gen.C10.ruleInit = Expected.ruleInit ∧
+    Gen.C10.similarKmers = Expected.similarKmers := by
+  decide
+
+theorem C10_gen_defaults : Gen.C10.defaults = Expected.defaults ∧ Gen.C10.params = Expected.params := by
+  decide
+
+theorem C10_gen_error_paths : Gen.C10.errorPaths = Expected.errorPaths := by
   decide
 
 /-! ## non-vacuity -/
